@@ -1,5 +1,6 @@
 import Gonuts.Lemmas.Send
 import Gonuts.Lemmas.Sorter
+import Gonuts.Lemmas.SelectFixed
 /-!
   C18 — send hands over exactly the requested amount, fees included when asked.
   Pure part: coin selection, fee and split arithmetic of the wallet (`Model.Select`, `Model.Amount`),
@@ -452,5 +453,48 @@ theorem driver_sorters_ok (chosen : List Nat) :
 /-- three proofs of amount 2: the oracle order `[2, 0]` makes the model pick uid 2, then 0 (stable: 0, 1). -/
 example : selectProofsToSend (oracleSorter [2, 0]) k6Mint [⟨2, 1, 0⟩, ⟨2, 1, 1⟩, ⟨2, 1, 2⟩] 3 true
     = .ok [⟨2, 1, 2⟩, ⟨2, 1, 0⟩, ⟨2, 1, 1⟩] := by decide
+
+/-! ## why K6 is recorded, and the proposed repair of `send_succeeds` -/
+
+/-- For the K6 witness no fee estimate at all is exact: with ppk 1000 and amount 3 there is no `f` whose own
+    split makes the fee of the proofs sent equal to `f` (`2 + popcount f = f` has no solution; the natural
+    iteration oscillates 3 ↔ 4).  So `send_exact_fee` cannot be repaired by a better estimate alone. -/
+theorem k6_no_exact_fee (f : UInt64) :
+    feesForCount ((amountSplit 3).length + (amountSplit f).length) 1000 ≠ f := by
+  intro h
+  have hlen := amountSplit_length_le f
+  have h3 : (amountSplit 3).length = 2 := by decide
+  have hk : (1000 : UInt64).toNat = 1000 := rfl
+  have hfee := feesForCount_exact (n := (amountSplit 3).length + (amountSplit f).length) (ppk := 1000)
+    (by rw [h3, hk]; omega)
+  rw [h, h3, hk] at hfee
+  have hf : f.toNat = 2 + (amountSplit f).length := by
+    rw [hfee]; unfold ceilDiv1000; omega
+  have hsmall : f.toNat < 67 := by omega
+  have key : ∀ k : Nat, k < 67 → k ≠ 2 + (amountSplit (UInt64.ofNat k)).length := by decide
+  exact key f.toNat hsmall (by rw [UInt64.ofNat_toNat]; exact hf)
+
+/-- The proposed repair (findings/C18-send-succeeds-fallback.patch, not applied): with the fallback to every
+    proof held, `selectProofsForAmount` keeps `select_sound` … -/
+theorem repair_sound {srt : Sorter} (hs : srt.OK) {m : Mint} {inactive active sel : List P}
+    {amount : UInt64} {inc : Bool} (h : selectProofsForAmountFixed srt m inactive active amount inc = .ok sel)
+    (hn : NoWrap m inc (inactive ++ active))
+    (hA : amount.toNat + feeOptN m inc inactive + feeOptN m inc active < 2 ^ 64) :
+    (∃ rest, (sel ++ rest).Perm (inactive ++ active)) ∧ amount.toNat + feeOptN m inc sel ≤ amountN sel :=
+  selectProofsForAmountFixed_ok_nat hs h hn hA
+
+/-- … and satisfies `send_succeeds` at full strength: whatever is covered by the holdings minus the fee of
+    spending every proof held is selected, with inactive keysets and any ppk. -/
+theorem repair_succeeds {srt : Sorter} {m : Mint} {inactive active : List P} {amount : UInt64} {inc : Bool}
+    (hn : NoWrap m inc (inactive ++ active))
+    (hA : amount.toNat + feeOptN m inc (inactive ++ active) ≤ amountN (inactive ++ active)) :
+    ∃ sel, selectProofsForAmountFixed srt m inactive active amount inc = .ok sel :=
+  selectProofsForAmountFixed_succeeds hn hA
+
+/-- both recorded witnesses are selected by the repaired function -/
+example : selectProofsForAmountFixed stableSorter discMint discInactive discActive 7 true
+    = .ok (discInactive ++ discActive) := by decide
+example : selectProofsForAmountFixed stableSorter ceilMint [⟨1, 2, 0⟩] [⟨2, 1, 1⟩] 2 true
+    = .ok [⟨1, 2, 0⟩, ⟨2, 1, 1⟩] := by decide
 
 end Gonuts.Props.C18
